@@ -896,6 +896,50 @@ class IouMonitor(Monitor):
 
 
 # =============================================================================== C11
+def stale_lineage_rollback(pre: dict, post: dict):
+    """Mechanism signature of the recorded finding (known_findings.json, DESIGN.md §8.6):
+    the ONLY differences between pre and post are lineage-id values (node attribute and
+    the annotator's lineage table), and every node whose value differs lies in a connected
+    component that carried MORE THAN ONE lineage id already before the call (possible only
+    after history entries recorded before a bulk re-numbering of the lineage ids were
+    replayed). Returns the offending pre-state components' ids, or None."""
+    lk = pre.get("feature_keys", (None,) * 4)[3]
+    if lk is None:
+        return None
+
+    def strip(d):
+        e = {k: v for k, v in d.items() if k != "lineage_map"}
+        e["nodes"] = {n: {k: v for k, v in a.items() if k != lk}
+                      for n, a in d.get("nodes", {}).items()}
+        e["all_node_attrs"] = {n: tuple(kv for kv in a if kv[0] != lk)
+                               for n, a in d.get("all_node_attrs", {}).items()}
+        return e
+
+    if strip(pre) != strip(post):
+        return None
+    lin0 = {n: dict(a).get(lk) for n, a in pre["all_node_attrs"].items()}
+    lin1 = {n: dict(a).get(lk) for n, a in post["all_node_attrs"].items()}
+    changed = [n for n in lin0 if lin0[n] != lin1.get(n)]
+    if not changed:
+        return None
+    parent = {n: n for n in lin0}
+
+    def find(x):
+        while parent[x] != x:
+            parent[x] = parent[parent[x]]
+            x = parent[x]
+        return x
+
+    for u, v in pre["edges"]:
+        parent[find(u)] = find(v)
+    ids: dict = {}
+    for n in lin0:
+        ids.setdefault(find(n), set()).add(lin0[n])
+    if all(len(ids[find(n)]) > 1 for n in changed):
+        return sorted(sorted(map(str, ids[find(n)])) for n in {find(c): c for c in changed}.values())
+    return None
+
+
 class AtomicityMonitor(Monitor):
     name = "atomic"
 
@@ -944,12 +988,18 @@ class AtomicityMonitor(Monitor):
         out = []
         if rec.pre != rec.post:
             secs = diff_sections(rec.pre, rec.post)
+            stale = stale_lineage_rollback(rec.pre, rec.post)
+            if stale:
+                self.count("known-finding-stale-lineage-rollback")
             out.append(violation(
                 "refused-edit-changed-state",
                 f"{ {**rec.op, 'cells': '...'} if k == 'paint' else rec.op} raised "
                 f"{rec.out.exc_type} ({rec.out.exc_msg}) at {site} after {nprim} sub-edits "
-                f"{s['prims']}; changed: {secs}: {diff(rec.pre, rec.post)[:6]}",
-                f"C11/changed/{cls}/{rec.out.exc_type}/{sig(rec)}"))
+                f"{s['prims']}; changed: {secs}: {diff(rec.pre, rec.post)[:6]}"
+                + (f"; BEFORE the call the component(s) of the changed nodes already carried "
+                   f"several lineage ids: {stale}" if stale else ""),
+                "C11/lineage-only/component-had-several-lineage-ids-before-the-call" if stale
+                else f"C11/changed/{cls}/{rec.out.exc_type}/{sig(rec)}"))
         elif s["emits"]:
             out.append(violation(
                 "refused-edit-emitted", f"{rec.op} raised {rec.out.exc_type} but emitted "
